@@ -35,17 +35,18 @@ type C19Replay struct {
 }
 
 type c19Run struct {
-	results   [][]Result
-	findings  map[string]string
-	sched     *simrt.Sched
-	yields    []int
-	accYields []int
-	stateSync int
-	stalled   bool
-	unowned   bool
-	overrun   bool
-	evHash    uint64
-	siteIDs   []int
+	results           [][]Result
+	findings          map[string]string
+	sched             *simrt.Sched
+	yields            []int
+	accYields         []int
+	stateSync         int
+	stateUnattributed int
+	stalled           bool
+	unowned           bool
+	overrun           bool
+	evHash            uint64
+	siteIDs           []int
 }
 
 func (t *C19Task) order() *simrt.OrderSource {
@@ -123,6 +124,7 @@ func runTasks(tasks []C19Task, s *simrt.Sched, only int) *c19Run {
 	// monitors, evaluated at every scheduler step
 	lastG := simrt.GlobalHashes()
 	lastA := simrt.DeepHash(allArgs)
+	monSteps, monSkipped := 0, false
 	monitor = func(ran *simrt.Task, reason string) {
 		if ran == nil {
 			return
@@ -133,12 +135,31 @@ func runTasks(tasks []C19Task, s *simrt.Sched, only int) *c19Run {
 			// cannot speak about them anyway (being started is a synchronisation operation)
 			return
 		}
+		// a call that hands work to goroutines over a channel blocks thousands of times: beyond
+		// the first 256 steps of a run the hashes are taken at a thinning subset of the steps
+		// (and at the end of every call). A change seen after steps were passed over cannot be
+		// attributed to the task that happens to run now, so it is only counted then
+		monSteps++
+		if monSteps > 256 && reason != "call-end" {
+			stride := 1
+			for stride*256 < monSteps {
+				stride *= 2
+			}
+			if monSteps%stride != 0 {
+				monSkipped = true
+				return
+			}
+		}
+		attributable := !monSkipped
+		monSkipped = false
 		g := simrt.GlobalHashes()
 		for i := range g {
 			if i >= len(lastG) || g[i] == lastG[i] {
 				continue
 			}
-			if ran.SyncOps == syncAtCall[ran.ID] {
+			if !attributable {
+				run.stateUnattributed++
+			} else if ran.SyncOps == syncAtCall[ran.ID] {
 				if _, dup := run.findings["package-state-modified-without-synchronisation"]; !dup {
 					run.findings["package-state-modified-without-synchronisation"] = fmt.Sprintf("package-level variable %s changed while task %d executed call %d (%s) and the task performed no synchronisation operation in that call",
 						simrt.Globals[i].Name, ran.ID, ran.CallIdx, callName(tasks, ran.CallIdx))
@@ -549,6 +570,7 @@ func (w *Worker) runC19Case(idx int64) {
 	w.St.FaultKinds["preemption_inside_a_call"] += int64(in.sched.Switches)
 	w.St.FaultKinds["task_order_choice"] += int64(countKind(in.sched.Decisions, "finish") + countKind(in.sched.Decisions, "start"))
 	w.St.Probes["state_changes_under_synchronisation"] += int64(in.stateSync)
+	w.St.Probes["state_changes_not_attributed_(long_run,_thinned_monitoring)"] += int64(in.stateUnattributed)
 	w.St.Probes["calls_not_repeatable_alone"] += int64(ev.soloNondet)
 	w.St.Probes["set_valued_result_in_another_order"] += int64(ev.orderOnly)
 	w.St.Probes["library_go_statements_simulated"] += int64(in.sched.GoCalls)
